@@ -967,7 +967,7 @@ def r4(ctx: Ctx, rl: RL) -> None:
             break
     for f, c, t, ok in site_rows:
         ctx.ob("C18.R4", f, c, ok, f"{t.name} reached without a valid not-stopped fact: after stop() returned an attempt, a timer or the mDNS listener could be started", node=c)
-    ctx.count("C18.R4.start-sites", len(site_rows), 7, "sites that start an attempt, schedule one or start listening")
+    ctx.count("C18.R4.start-sites", len(site_rows), 6, "sites that start an attempt, schedule one or start listening")
     # the timer callback / starter is also entered from the loop: its effect is gated by R1 (attempt only if not stopped, under the lock)
     # ---- mDNS filter
     U = rl.update
